@@ -4,9 +4,11 @@ from __future__ import annotations
 import itertools
 
 from common import streamcase as sc
+from common import streamcase2 as sc2
 
 PROPERTY_ID = "C07"
 RUN_MODULE = "Run.C07"
+PARAMS_FROM = ["c06"]        # Run.C07 re-exports Run.C06 (raw JSON / file-based framers), which reads Gen/ParamsC06.v
 PROPS_FILE = "Props/C07.v"
 ALLOWED_AXIOMS = []
 ANCHORS = [
@@ -21,13 +23,21 @@ ANCHORS = [
     ("src/easynetwork/lowlevel/_stream.py", "StreamDataConsumer.next"),
     ("src/easynetwork/lowlevel/_stream.py", "BufferedStreamDataConsumer.next"),
     ("src/easynetwork/lowlevel/_stream.py", "BufferedStreamDataConsumer.get_write_buffer"),
+    ("src/easynetwork/serializers/json.py", "_JSONParser.raw_parse"),
+    ("src/easynetwork/serializers/json.py", "_JSONParser._split_partial_document"),
+    ("src/easynetwork/serializers/base_stream.py", "FileBasedPacketSerializer.__generic_incremental_deserialize"),
+    ("src/easynetwork/serializers/base_stream.py", "FileBasedPacketSerializer.__check_file_buffer_limit"),
+    ("src/easynetwork/serializers/base_stream.py", "FileBasedPacketSerializer.create_deserializer_buffer"),
 ]
 RULE = ("streams = payload (length 0 .. limit+seplen+R, no separator inside, bytes drawn from the separator's own "
         "alphabet plus fillers) optionally followed by the separator and a short second frame; limits 3..24, "
         "separators of 1-3 bytes incl. self-overlapping ones; copying and buffer-filling consumer (AutoSeparated "
         "test subclass, StringLineSerializer); every chunking for streams <= 10 bytes, all single and double cuts "
-        "near the limit boundaries and byte-by-byte feeds beyond. Non-trivial = payload within seplen+2 of a limit "
-        "boundary (limit, limit-seplen, limit-1-seplen) or a cut inside/adjacent to the separator.")
+        "near the limit boundaries and byte-by-byte feeds beyond. Raw-JSON mode (never-closing arrays/objects/strings, "
+        "endless numbers and literals, whitespace) and a file-based test serializer (length-prefixed records whose "
+        "announced length never arrives), copying and buffered, lengths 0..limit+R+3, same chunkings. Non-trivial = "
+        "payload within seplen+2 of a limit boundary (limit, limit-seplen, limit-1-seplen) or a cut inside/adjacent to "
+        "the separator (for JSON/file-based: length within 3 of the limit).")
 TRUSTED = ["model of read_until/_buffered_readuntil/LimitOverrunError/consumers hand-written in coq/Frame, coq/Stream"]
 ASSUMPTIONS = ["the inner one-shot codec is the identity / ascii check (test subclass) — the limit logic does not depend on it"]
 
@@ -53,8 +63,14 @@ def mk(kind, sep, limit, keep_end, hint, chunks, impl):
 
 
 def cases(tier, rng, escalate):
-    thorough = tier == "thorough" or escalate
-    limits = [3, 4, 5, 7, 8, 10, 13, 16, 24] if thorough else [3, 5, 8, 13]
+    yield from cases_extra(tier, rng, escalate)
+    yield from cases_sep(tier, rng, escalate)
+
+
+def cases_sep(tier, rng, escalate):
+    thorough = tier == "thorough"
+    # an edited anchor function (escalate) widens the quick bounds without going to the full thorough enumeration
+    limits = [3, 4, 5, 7, 8, 10, 13, 16, 24] if thorough else ([3, 4, 5, 8, 10, 13, 16] if escalate else [3, 5, 8, 13])
     for sep in SEPS:
         seplen = len(sep)
         for limit in limits:
@@ -75,7 +91,7 @@ def cases(tier, rng, escalate):
                             if not stream:
                                 continue
                             chunkings = []
-                            if len(stream) <= (10 if thorough else 7):
+                            if len(stream) <= (10 if thorough else 8 if escalate else 7):
                                 chunkings = list(sc.all_chunkings(stream))
                                 tag = "all-chunkings"
                             else:
@@ -101,13 +117,74 @@ def cases(tier, rng, escalate):
                                            nontrivial=bool(near or cut_in_sep))
 
 
-run_impl = sc.run_impl
+JSON_UNTERMINATED = [b"[1,", b'"a', b"1", b"nul", b'{"k":[', b" \t", b'["\\"', b"[[", b'{"a":"}]']
+JSON_SMALL = [b"[1]", b'{"a":"b"}', b"12 ", b"null\n", b'"x"', b"[[]] "]
+
+
+def _grow(seed: bytes, n: int) -> bytes:
+    """n bytes of a document that never completes, built by repeating the seed's last byte pattern"""
+    out = bytearray(seed)
+    filler = seed[-1:] if seed[-1:] not in (b'"', b"[", b"{", b",") else (b"a" if seed[-1:] == b'"' else b"1,")
+    while len(out) < n:
+        out += filler
+    return bytes(out[:n])
+
+
+def cases_extra(tier, rng, escalate):
+    thorough = tier == "thorough"
+    limits = [3, 5, 8, 13, 24] if thorough else ([3, 4, 6, 9, 13] if escalate else [4, 9])
+    for limit in limits:
+        R = rng.choice([1, 2, 3, 7])
+        # ---- raw JSON (copying only: JSONSerializer has no buffered mode)
+        for seed in JSON_UNTERMINATED:
+            for n in range(1, limit + R + 4):
+                if not thorough and abs(n - limit) > 3 and rng.random() < 0.5:
+                    continue
+                stream = _grow(seed, n)
+                for chunks in _chunkings(stream, R, rng, thorough):
+                    yield dict(input=sc2.make_simple_case(4, [limit], [b"jsonraw"], chunks),
+                               tags=["kind4", "jsonraw", "unterminated", "near-boundary" if abs(n - limit) <= 3 else "far"],
+                               nontrivial=abs(n - limit) <= 3)
+        for doc in JSON_SMALL:
+            if len(doc) + 2 > limit:
+                continue
+            stream = doc + rng.choice(JSON_SMALL)
+            for chunks in _chunkings(stream, R, rng, thorough):
+                yield dict(input=sc2.make_simple_case(4, [limit], [b"jsonraw"], chunks),
+                           tags=["kind4", "jsonraw", "terminated"], nontrivial=len(chunks) > 1)
+        # ---- file based (length-prefixed test format): announced length never arrives
+        for kind in (5, 6):
+            for n in range(1, limit + R + 4):
+                if not thorough and abs(n - limit) > 3 and rng.random() < 0.5:
+                    continue
+                stream = bytes([250]) + bytes(rng.choice(b"abc") for _ in range(n - 1))
+                hint = rng.choice([1, 2, 3, 8, 64])
+                cfg = [limit, sc2.FB_EXPECTED] + ([hint] if kind == 6 else [])
+                for chunks in _chunkings(stream, R, rng, thorough):
+                    yield dict(input=sc2.make_simple_case(kind, cfg, [b"fb", b"eager"], chunks),
+                               tags=[f"kind{kind}", "filebased", "unterminated", "near-boundary" if abs(n - limit) <= 3 else "far"],
+                               nontrivial=abs(n - limit) <= 3)
+
+
+def _chunkings(stream, R, rng, thorough):
+    if len(stream) <= (9 if thorough else 6):
+        return list(sc.all_chunkings(stream))
+    out = [[stream], [stream[i:i + 1] for i in range(len(stream))], [stream[i:i + R] for i in range(0, len(stream), R)]]
+    for _ in range(6 if thorough else 2):
+        out.append(sc.cuts_to_chunks(stream, [rng.randrange(1, len(stream)) for _ in range(rng.randrange(1, 4))]))
+    return out
+
+
+def run_impl(inp):
+    return sc2.run_impl(inp) if inp[0] >= 4 else sc.run_impl(inp)
 
 
 def oracle(inp):
     """The property on the implementation: (a) unterminated data beyond limit + one read + one separator has raised
     a limit error; (b) a frame safely under the limit (payload + separator < limit) is never rejected for its size."""
     kind, cfg, _dec, chunks, impl = inp[:5]
+    if kind >= 4:
+        return oracle_extra(inp)
     sep, limit = cfg[0], cfg[1]
     seplen = len(sep)
     stream = b"".join(chunks)
@@ -147,3 +224,28 @@ def shrink(inp):
     kind, cfg, dec, chunks, impl = inp[:5]
     for i in range(len(chunks) - 1):
         yield [kind, cfg, dec, chunks[:i] + [chunks[i] + chunks[i + 1]] + chunks[i + 2:], impl]
+
+
+def oracle_extra(inp):
+    """raw JSON / file-based: a document that never completes must raise the limit error before more than
+    limit + one read (+1) bytes are held; small complete documents are never rejected for their size."""
+    kind, cfg, _tabs, chunks, impl = inp[:5]
+    limit = cfg[0]
+    stream = b"".join(chunks)
+    rounds = sc2.run_impl(inp)
+    events = [e for r in rounds for e in r[1]]
+    limit_errors = [e for e in events if e[0] == 1 and e[1] == 0]
+    crashed = any(e[0] == 2 for e in events)
+    packets = [e for e in events if e[0] == 0]
+    R = max((len(c) for c in chunks), default=0)
+    if kind == 4:
+        complete = bool(packets) or any(e[0] == 1 and e[1] != 0 for e in events)
+        if not complete and len(stream) > limit + R + 1 and not limit_errors and not crashed:
+            return f"{len(stream)} bytes of a never-completing JSON document held with limit={limit}, read<={R}: no limit error"
+        if all(len(d) + 2 <= limit for d in JSON_SMALL if stream.startswith(d)) and any(stream.startswith(d) for d in JSON_SMALL) \
+                and limit_errors and len(stream) + 1 < limit:
+            return f"small JSON document rejected with a limit error (limit={limit})"
+    else:
+        if stream[:1] == bytes([250]) and len(stream) > limit + R + 1 and not limit_errors and not crashed:
+            return f"{len(stream)} bytes of an incomplete record held with limit={limit}, read<={R}: no limit error"
+    return None
